@@ -1,6 +1,7 @@
 package kv
 
 import (
+	"sync/atomic"
 	"context"
 	"errors"
 	"fmt"
@@ -37,6 +38,11 @@ type Server struct {
 	WatchFault func(n int, rv string) WatchMode
 	// Kind selects the list type returned (default pod).
 	Kind string
+	// EmptyListRV makes List answer with an empty ListMeta.ResourceVersion (the objects keep their versions); a
+	// Watch from "" starts at the server's current version.
+	EmptyListRV bool
+	// Blocked counts Watch calls that are blocked until their context is cancelled (WatchBlock).
+	Blocked atomic.Int32
 	// Mixed makes List return a generic metav1.List of all stored objects, whatever their kinds.
 	Mixed bool
 	// RVStep spaces resource versions (default 1).
@@ -181,6 +187,9 @@ func (s *Server) List(ctx context.Context, opts metav1.ListOptions) (runtime.Obj
 	objs, rv := s.stateLocked(), strconv.Itoa(s.rv)
 	s.mu.Unlock()
 	finish(rv, false)
+	if s.EmptyListRV {
+		rv = ""
+	}
 	if s.Mixed {
 		l := &metav1.List{ListMeta: metav1.ListMeta{ResourceVersion: rv}}
 		for _, o := range objs {
@@ -211,10 +220,17 @@ func (s *Server) Watch(ctx context.Context, opts metav1.ListOptions) (watch.Inte
 	case WatchError:
 		return nil, ErrWatchConnect
 	case WatchBlock:
+		s.Blocked.Add(1)
 		<-ctx.Done()
+		s.Blocked.Add(-1)
 		return nil, ctx.Err()
 	}
 	from, err := strconv.Atoi(opts.ResourceVersion)
+	if opts.ResourceVersion == "" {
+		s.mu.Lock()
+		from, err = s.rv, nil
+		s.mu.Unlock()
+	}
 	if err != nil {
 		return nil, fmt.Errorf("fake server: bad resourceVersion %q", opts.ResourceVersion)
 	}
